@@ -326,7 +326,7 @@ TagValsFor(T) ==
   \cup {TagVal("mixed", 0, l) : l \in Seqs(RefEl(T, {SmallWord}) \cup LLEl({1}), 2)}
 WithKey(vals, keys) == {[k |-> k, t |-> v.t, s |-> v.s, l |-> v.l] : k \in keys, v \in vals}
 TagShapes == Seqs(WithKey(TagValsFor({DeepP, POther}), {1}), 1)
-             \cup {<<a, b>> : a \in WithKey(TagValsFor({DeepP}), {0, M - 3}), b \in WithKey(TagValsFor({DeepP, POther}), {2})}
+             \cup {<<a, b>> : a \in WithKey(TagValsFor({DeepP}), {0}), b \in WithKey(TagValsFor({DeepP}), {M - 3})}
 MemberShapes == Seqs({[ty |-> ty, role |-> ro, tns |-> t, v |-> v] :
                         ty \in {0, 3}, ro \in {0, M - 3}, t \in DeepNs, v \in MixWords}, 2)
 
@@ -348,7 +348,7 @@ GeomRefShapes(T) == UNION {{[e |-> 0, offs |-> o, paths |-> p] : o \in Splits(Le
                            p \in (Seqs(RefsOver(T, TwoWords), GeomLen) \ {<<>>})}
 PolyLLs == {[loops |-> lo, pts |-> p] : lo \in {<<>>, <<2>>}, p \in {<<>>, <<1, 3, 4>>, <<4, 1, 3, 5>>}}
 GeomLLShapes == {[e |-> 1, polys |-> ps] : ps \in Seqs(PolyLLs, GeomLen)}
-PolyMixed(T) == {[refs |-> r, loops |-> <<>>, pts |-> <<>>] : r \in (Seqs(RefsOver(T, TwoWords), 2) \ {<<>>})}
+PolyMixed(T) == {[refs |-> r, loops |-> <<>>, pts |-> <<>>] : r \in [1..1 -> RefsOver(T, TwoWords)] \cup [1..2 -> RefsOver(T, {SmallWord})]}
                 \cup {[refs |-> <<>>, loops |-> p.loops, pts |-> p.pts] : p \in {q \in PolyLLs : Len(q.pts) # 4}}
 GeomMixedShapes(T) == {[e |-> 2, polys |-> ps] : ps \in Seqs(PolyMixed(T), Min2(GeomLen, 2))}
 GeomShapes(T) == GeomRefShapes(T) \cup GeomLLShapes \cup GeomMixedShapes(T)
@@ -357,7 +357,7 @@ RecGeoms == {g \in GeomRefShapes({PPath, POther}) : Len(g.paths) <= 2}
             \cup {[e |-> 1, polys |-> ps] : ps \in Seqs({[loops |-> <<2>>, pts |-> <<1, 3, 4>>], [loops |-> <<>>, pts |-> <<>>]}, 2)}
             \cup {[e |-> 2, polys |-> ps] : ps \in Seqs({[refs |-> <<[tns |-> PPath, v |-> SmallWord], [tns |-> POther, v |-> HiWord]>>, loops |-> <<>>, pts |-> <<>>],
                                                        [refs |-> <<>>, loops |-> <<2>>, pts |-> <<1, 3, 4>>]}, 2)}
-RecMembers(P) == Seqs({[ty |-> ty, role |-> SmallWord, tns |-> t, v |-> v] : ty \in {1, 2}, t \in {P, PRelation, POther}, v \in TwoWords}, Min2(RecLen, 2))
+RecMembers(P) == Seqs({[ty |-> ty, role |-> SmallWord, tns |-> t, v |-> v] : ty \in {1, 2}, t \in {P, PRelation, POther}, v \in TwoWords}, 1)
 
 PLHShapes == {[tok |-> t, n |-> n, nss |-> l] : t \in 0..3, n \in {0, SmallWord, HiWord},
               l \in Seqs({[tns |-> 1, idx |-> 0], [tns |-> 2, idx |-> SmallWord], [tns |-> 4, idx |-> M - 3]}, 3)}
